@@ -170,9 +170,15 @@ def get_minimized_expr(op: str, params: Tuple[Expr, ...]) -> Expr:
     tries to calculate the op on the params, if possible. returns the resulting Expr.
     @param op: the math-op string
     @param params: the op parameters
+    @raise FlipJumpExprException if math op failed
     @return: the expression
     """
     if all(param.is_int() for param in params):
-        return Expr(op_string_to_function[op](*map(int, params)))
+        try:
+            return Expr(op_string_to_function[op](*map(int, params)))
+        except FlipJumpExprException:
+            raise
+        except Exception as e:
+            raise FlipJumpExprException(f'{repr(e)}. bad math operation ({op}): {str(Expr((op, params)))}.')
     else:
         return Expr((op, params))
